@@ -437,11 +437,13 @@ def run(rep, program: Program, tier: str) -> None:
     )
     rep.assumptions = ["exact equality of the recorded prefix with an uninterrupted run is not decided", "signal delivery inside NumPy/OS primitives is outside the code analysed"]
     et = ExcTypes(program)
-    rep.isolate(rule_r1, rep, program, et)
-    rep.isolate(rule_r2, rep, program, et)
-    rep.isolate(rule_r3, rep, program)
-    rep.isolate(rule_r4, rep, program)
-    rep.isolate(rule_r5, rep, program)
+    from . import samplersim
+
+    samplersim.superseded(rep, program, tier, [("R1", "the iteration loop runs inside a try whose KeyboardInterrupt handler does not re-raise; the interrupted state is returned and memory maps are flushed")], "R6", rule_r1, rep, program, et)
+    samplersim.superseded(rep, program, tier, [("R2", "the interrupt reaches the stage loop on every path (sequential and multi-process); interrupted chains' outputs are collected; nothing runs afterwards")], "R6", rule_r2, rep, program, et)
+    samplersim.superseded(rep, program, tier, [("R3", "rows are stored inside the iteration loop")], "R6", rule_r3, rep, program)
+    samplersim.superseded(rep, program, tier, [("R4", "no handler or epilogue writes a row other than that of the interrupted iteration")], "R6", rule_r4, rep, program)
+    samplersim.superseded(rep, program, tier, [("R5", "memory-mapped arrays are filled with the declared default before they are returned")], "R6", rule_r5, rep, program)
     from . import samplersim
 
     rep.isolate(samplersim.rule, rep, program, tier, PROP, "R6")
